@@ -17,6 +17,7 @@ package glob
 import (
 	"regexp"
 	"strings"
+	"unicode/utf8"
 )
 
 // Glob is a regular expression for glob-style patterns.
@@ -37,16 +38,22 @@ func regexpFromGlob(pattern string) string {
 	// https://github.com/google/re2/wiki/Syntax
 	// glob (programming) - Wikipedia
 	// https://en.wikipedia.org/wiki/Glob_(programming)
-	repstrs := []struct {
-		old string
-		new string
-	}{
-		{old: "*", new: ".*"},
-		{old: "?", new: "."},
+	var re2Pattern strings.Builder
+	// (?s) lets '*' and '?' match any character including a newline.
+	re2Pattern.WriteString("(?s)^")
+	for n := 0; n < len(pattern); n++ {
+		switch c := pattern[n]; {
+		case c == '*':
+			re2Pattern.WriteString(".*")
+		case c == '?':
+			re2Pattern.WriteString(".")
+		case c < utf8.RuneSelf:
+			// Every other character matches only itself.
+			re2Pattern.WriteString(regexp.QuoteMeta(string(rune(c))))
+		default:
+			re2Pattern.WriteByte(c)
+		}
 	}
-	re2Pattern := pattern
-	for _, repstr := range repstrs {
-		re2Pattern = strings.ReplaceAll(re2Pattern, repstr.old, repstr.new)
-	}
-	return "^" + re2Pattern + "$"
+	re2Pattern.WriteString("$")
+	return re2Pattern.String()
 }
